@@ -19,6 +19,10 @@ var Verif struct {
 	Skew func(start time.Time) time.Time
 	// Probe is called with a probe ID when a rare internal path is taken.
 	Probe func(id uint8)
+	// MoveSlices is asked before a table or archetype is appended to the storage.
+	// If it returns true, the list is moved to a new backing array first,
+	// as an append beyond the current capacity does.
+	MoveSlices func() bool
 }
 
 // Kinds of yield points.
@@ -86,4 +90,15 @@ func verifProbe(id uint8) {
 	if Verif.Probe != nil {
 		Verif.Probe(id)
 	}
+}
+
+// verifMoveSlice moves a slice to a new backing array if the harness asks for it.
+// The old array stays behind unchanged, exactly as after a re-allocating append.
+func verifMoveSlice[T any](s []T) []T {
+	if Verif.MoveSlices != nil && Verif.MoveSlices() {
+		moved := make([]T, len(s), len(s)+1)
+		copy(moved, s)
+		return moved
+	}
+	return s
 }
